@@ -9,13 +9,24 @@ Driver for stream `fees` (C07). One op per line, one observation per line.
   parse <script-hex>                         -> sig | multisig <m> <n> | none
   calc <base> <script-hex>                   -> <fee> <size>                (`calculate`)
   wsize <inv-hex> <ver-hex>                  -> <len of the encoded witness>
-  wcost <base> <gorgon> <inv-hex> <ver-hex>  -> halt <picoGAS> <depth> | fault   (`runWitness`, no limit, every signature valid)
+  wcost <base> <gorgon> <inv-hex> <ver-hex>  -> halt <datoshi> <depth> | fault   (`runWitness`, no limit, every signature valid)
   vw <base> <maxvergas> <gorgon> <hashok> <gas> <pairs-hex (key‖sig, 97 bytes each)> <inv-hex> <ver-hex>
                                              -> ok <gas> | invsig <gas> | fail   (`verifyWitness`)
+  admit <chain> <rec> <tx> <signers> <attrs> <pool>   -> ok | err:<class>      (`Admission.admit`)
+     chain   := height maxVUBInc maxBlockSysFee feePerByte base maxVerGas mtb gorgon p2p reserved notaryActive
+                feeHP feeOR feeNVB feeCF feeNA committee oracle|- notary nblocked acc*
+     rec     := N | B | T | S index k (acc idx)^k
+     tx      := scriptOk sysFee netFee vub size
+     signers := n (acc scopeNone wit)^n     wit := W hashOk pairs inv ver | M | Q cost o|i|f
+     attrs   := k attr^k   attr := HP | OR scriptOk requestOk gasForResponse | NVB h | CF hashid onchain | NA nkeys | OT typ
+     pool    := dup conflictsAttrErr balance feeSum oracleErr full
+  numbers decimal, flags 0|1, hash id 0 is the transaction itself.
 -/
 import NeoModel.Base.Proto
 import NeoModel.Model.Fees
-open NeoModel NeoModel.Fees
+import NeoModel.Model.Admission
+open NeoModel NeoModel.Fees NeoModel.Admission
+open NeoModel.Generated.FeeConsts
 
 def chunks (n : Nat) : Nat → Bytes → List Bytes
   | 0, _ => []
@@ -24,6 +35,167 @@ def chunks (n : Nat) : Nat → Bytes → List Bytes
 def keyOk (k : Bytes) : Bool := k.length == 33 && (k.headD 0 == 2 || k.headD 0 == 3)
 
 def bit (s : String) : Option Bool := if s == "1" then some true else if s == "0" then some false else none
+
+abbrev P (α : Type) := List String → Option (α × List String)
+
+def pNat : P Nat
+  | [] => none
+  | t :: r => t.toNat?.map (·, r)
+
+def pBit : P Bool
+  | [] => none
+  | t :: r => (bit t).map (·, r)
+
+def pHexB : P Bytes
+  | [] => none
+  | t :: r => (Hex.decode t).map (·, r)
+
+def pTok : P String
+  | [] => none
+  | t :: r => some (t, r)
+
+def pMany {α : Type} (p : P α) : Nat → P (List α)
+  | 0, ts => some ([], ts)
+  | n+1, ts => do
+    let (x, r) ← p ts
+    let (xs, r') ← pMany p n r
+    pure (x :: xs, r')
+
+def pCounted {α : Type} (p : P α) : P (List α) := fun ts => do
+  let (n, r) ← pNat ts
+  pMany p n r
+
+def pPair : P (Nat × Nat) := fun ts => do
+  let (a, r) ← pNat ts
+  let (b, r) ← pNat r
+  pure ((a, b), r)
+
+def pRec : P Rec := fun ts => do
+  let (t, r) ← pTok ts
+  if t == "N" then pure (.none, r)
+  else if t == "B" then pure (.block, r)
+  else if t == "T" then pure (.tx, r)
+  else if t == "S" then do
+    let (idx, r) ← pNat r
+    let (l, r) ← pCounted pPair r
+    pure (.stub idx l, r)
+  else none
+
+def pWit (verifyOf : Bytes → Bytes → Bytes → Bool) : P Wit := fun ts => do
+  let (t, r) ← pTok ts
+  if t == "W" then do
+    let (hok, r) ← pBit r
+    let (_pairs, r) ← pHexB r
+    let (i, r) ← pHexB r
+    let (v, r) ← pHexB r
+    let _ := verifyOf
+    pure (.std hok i v, r)
+  else if t == "M" then pure (.missing, r)
+  else if t == "Q" then do
+    let (cost, r) ← pNat r
+    let (k, r) ← pTok r
+    let res : WRes := if k == "o" then .ok cost else if k == "i" then .invalidSig cost else .fail
+    pure (.opaque (fun lim => if cost ≤ lim then res else .fail), r)
+  else none
+
+/-- the `pairs` fields of all `W` witnesses of a line, concatenated (the valid key‖signature pairs). -/
+def collectPairs : List String → Bytes
+  | "W" :: _ :: p :: r => ((Hex.decode p).getD []) ++ collectPairs r
+  | _ :: r => collectPairs r
+  | [] => []
+
+def pSigner : P Signer := fun ts => do
+  let (acc, r) ← pNat ts
+  let (sn, r) ← pBit r
+  let (w, r) ← pWit (fun _ _ _ => true) r
+  pure (⟨acc, sn, w⟩, r)
+
+def pAttr : P (Attr × Option (Nat × Bool)) := fun ts => do
+  let (t, r) ← pTok ts
+  if t == "HP" then pure ((.highPriority, none), r)
+  else if t == "OR" then do
+    let (a, r) ← pBit r
+    let (b, r) ← pBit r
+    let (g, r) ← pNat r
+    pure ((.oracleResponse ⟨a, b, g⟩, none), r)
+  else if t == "NVB" then do
+    let (h, r) ← pNat r
+    pure ((.notValidBefore h, none), r)
+  else if t == "CF" then do
+    let (h, r) ← pNat r
+    let (oc, r) ← pBit r
+    pure ((.conflicts h, some (h, oc)), r)
+  else if t == "NA" then do
+    let (n, r) ← pNat r
+    pure ((.notaryAssisted n, none), r)
+  else if t == "OT" then do
+    let (n, r) ← pNat r
+    pure ((.other n, none), r)
+  else none
+
+def errName : Err → String
+  | .policySysFee => "policy-sysfee" | .invalidScript => "invalid-script" | .expired => "expired"
+  | .notYetValid => "not-yet-valid" | .policyBlocked => "policy-blocked" | .tooBig => "too-big"
+  | .smallNetFee => "small-netfee" | .alreadyExists => "already-exists" | .hasConflicts => "has-conflicts"
+  | .witness => "witness" | .invalidAttr => "invalid-attr" | .poolDup => "pool-dup"
+  | .poolConflictsAttr => "pool-conflicts-attr" | .insufficientFunds => "insufficient-funds"
+  | .poolConflict => "pool-conflict" | .poolOracle => "pool-oracle" | .oom => "oom"
+
+def runAdmit (ts : List String) : Option String := do
+  let pairs := collectPairs ts
+  let ps := chunks 97 pairs.length pairs
+  let (height, r) ← pNat ts
+  let (maxVUBInc, r) ← pNat r
+  let (mbsf, r) ← pNat r
+  let (fpb, r) ← pNat r
+  let (base, r) ← pNat r
+  let (mvg, r) ← pNat r
+  let (mtb, r) ← pNat r
+  let (gorgon, r) ← pBit r
+  let (p2p, r) ← pBit r
+  let (reserved, r) ← pBit r
+  let (notaryActive, r) ← pBit r
+  let (fHP, r) ← pNat r
+  let (fOR, r) ← pNat r
+  let (fNVB, r) ← pNat r
+  let (fCF, r) ← pNat r
+  let (fNA, r) ← pNat r
+  let (committee, r) ← pNat r
+  let (orc, r) ← pTok r
+  let oracle := if orc == "-" then none else orc.toNat?
+  let (notary, r) ← pNat r
+  let (blocked, r) ← pCounted pNat r
+  let (rec, r) ← pRec r
+  let (scriptOk, r) ← pBit r
+  let (sysFee, r) ← pNat r
+  let (netFee, r) ← pNat r
+  let (vub, r) ← pNat r
+  let (size, r) ← pNat r
+  let (signers, r) ← pCounted pSigner r
+  let (attrs, r) ← pCounted pAttr r
+  let (dup, r) ← pBit r
+  let (cae, r) ← pBit r
+  let (balance, r) ← pNat r
+  let (feeSum, r) ← pNat r
+  let (oerr, r) ← pBit r
+  let (full, r) ← pBit r
+  if !r.isEmpty then none
+  let onchain := attrs.filterMap (·.2)
+  let attrFee := fun (t : Nat) =>
+    if t = attrHighPriority then fHP else if t = attrOracleResponse then fOR else if t = attrNotValidBefore then fNVB
+    else if t = attrConflicts then fCF else if t = attrNotaryAssisted then fNA else 0
+  let lookup := fun (h : Nat) => if h = 0 then rec else if onchain.any (fun (x, oc) => x == h && oc) then Rec.tx else Rec.none
+  let c : Chain := { height := height, maxVUBInc := maxVUBInc, maxBlockSysFee := mbsf, feePerByte := fpb, base := base,
+                     maxVerGas := mvg, mtb := mtb, gorgon := gorgon, p2pSigExt := p2p, reservedAttrs := reserved,
+                     notaryActive := notaryActive, attrFee := attrFee, blocked := fun a => blocked.contains a,
+                     lookup := lookup, committee := committee, oracleHash := oracle, notary := notary,
+                     validKey := keyOk, verify := fun k sg => ps.contains (k ++ sg) }
+  let t : Tx := { hash := 0, scriptOk := scriptOk, sysFee := sysFee, netFee := netFee, validUntil := vub, size := size,
+                  signers := signers, attrs := attrs.map (·.1) }
+  let p : Pool := { has := fun _ => dup, conflictsAttrErr := cae, balance := balance, feeSum := feeSum, oracleErr := oerr, full := full }
+  match admit c p t with
+  | none => pure "ok"
+  | some e => pure s!"err:{errName e}"
 
 def step (s : Unit) (ws : List String) : Unit × String :=
   match ws with
@@ -67,7 +239,7 @@ def step (s : Unit) (ws : List String) : Unit × String :=
     match base.toNat?, bit g, Hex.decode i, Hex.decode v with
     | some base, some g, some i, some v =>
       match runWitness ⟨base, none, g, keyOk, fun _ _ => true⟩ i v with
-      | some st => (s, s!"halt {st.gas} {st.stack.length}")
+      | some st => (s, s!"halt {picoToDatoshi st.gas} {st.stack.length}")
       | none => (s, "fault")
     | _, _, _, _ => (s, "bad-op")
   | ["vw", base, mvg, g, hok, gas, pairs, i, v] =>
@@ -80,6 +252,7 @@ def step (s : Unit) (ws : List String) : Unit × String :=
       | .invalidSig c => (s, s!"invsig {c}")
       | .fail => (s, "fail")
     | _, _, _, _, _, _, _, _ => (s, "bad-op")
+  | "admit" :: ts => (s, (runAdmit ts).getD "bad-op")
   | _ => (s, "bad-op")
 
 def main : IO Unit := Proto.run () step
